@@ -26,12 +26,20 @@ RULE = ('populations of trace shards (4-12 instances, some still scheduled; 0-9 
         '>= 1 batch; distinct by (case, k). One case per shard is the retrieval side beyond the listing cap: the real state '
         'API (api.state.API with its watchers) lists the finished records matching a pattern after the real archiver moved more '
         'than 1000 newer non-matching records into later snapshots; every matching record that is live or in a kept snapshot '
-        'must be listed (at most 1000 match).')
+        'must be listed (at most 1000 match). Readers by name, after the complete run: ServerTraceLoop (handed events and '
+        'run(snapshot=True) against its ordering rule) for every traced server - the servers are configured under /servers, '
+        'and between the earlier pass and the run under test some are removed and some removed and configured again (the '
+        'server trace is keyed by name and outlives the node); trace.app.zk.list_traces by bare application name, by '
+        'explicit wildcard and by instance id must return every instance that is scheduled, has a live finished record or '
+        'whose record sits in a present /finished.history snapshot (applications with both live and archived instances).')
 ASSUMPTIONS = ['in-memory ZooKeeper fake; a crash = the k-th mutating call of the archiver session raises a BaseException and nothing of that session is applied afterwards',
                'virtual clock with zero tick (time.time constant during a run); node mtimes set by the harness',
                'tempfile.tempdir redirected to a per-case directory (a dying archiver leaks its temp file by nature)']
 BUDGET = {'quick': (14, 22.0), 'thorough': (260, 280.0)}
-REQUIRED_REACH = {'*': ['trace_reader_checked', 'trace_reader_instance_in_non_adjacent_snapshots', 'cuts', 'cuts_mid_run', 'batches_archived', 'young_or_scheduled_kept', 'history_pruned', 'download_batch_checked', 'bulky_cases', 'state_api_listings_behind_1000_newer_records']}
+REQUIRED_REACH = {'*': ['trace_reader_checked', 'trace_reader_instance_in_non_adjacent_snapshots', 'cuts', 'cuts_mid_run', 'batches_archived', 'young_or_scheduled_kept', 'history_pruned', 'download_batch_checked', 'bulky_cases', 'state_api_listings_behind_1000_newer_records',
+                        'server_trace_reader_archived_events_of_removed_and_configured_again_server',
+                        'server_trace_reader_archived_events_of_configured_server',
+                        'list_traces_app_with_live_and_archived_instances']}
 
 NOW = 1700000000.0
 
@@ -196,7 +204,9 @@ def _cases(ctx, reader_tmp):
         if idx == 2:
             listing_case(ctx, idx, rng)
             continue
-        clock = env.VClock(base=NOW, tick=0.0)
+        # the earlier archiving pass (round 0) happens a little before the run under test (everything round 0 writes
+        # is at least 2750 s older than any expiry, so ten seconds change nothing of what it archives)
+        clock = env.VClock(base=NOW - 10, tick=0.0)
         clock.install()
         # the archiver's sqlite files fsync: keep them on tmpfs when there is one
         tmp = tempfile.mkdtemp(prefix='vf-c18-', dir='/dev/shm' if os.path.isdir('/dev/shm') and os.access('/dev/shm', os.W_OK) else None)
@@ -207,10 +217,19 @@ def _cases(ctx, reader_tmp):
             srv.keep_log = True
             srv.child_order, srv.order_salt = 'hash', str(idx)
             adm = srv.client('admin')
-            for p in (z.SCHEDULED, z.FINISHED, z.TRACE_HISTORY, z.FINISHED_HISTORY, z.SERVER_TRACE_HISTORY):
+            for p in (z.SCHEDULED, z.FINISHED, z.TRACE_HISTORY, z.FINISHED_HISTORY, z.SERVER_TRACE_HISTORY, z.SERVERS):
                 adm.ensure_path(p)
             for sh in z.trace_shards() + z.server_trace_shards():
                 adm.ensure_path(sh)
+            # the servers whose events are traced are configured in the cell (/servers/<name>); an operator removes
+            # and configures servers again over time (re-imaged, moved to another partition), the server trace is
+            # keyed by the server name and outlives the node.  (Own random stream: the population's is unchanged.)
+            srng = ctx.case_rng(idx, 'servers')
+            servers_cfg = {}
+            for n in range(4):
+                if srng.random() < 0.8:
+                    servers_cfg['srv%d' % n] = 'configured'
+                    adm.create(z.path.server('srv%d' % n), b'{"parent": "rack:r1", "partition": "_default"}')
             expires = rng.choice([60, 300, 300])
             batch = rng.randint(1, 7)
             fbatch = rng.randint(1, 5)
@@ -296,6 +315,17 @@ def _cases(ctx, reader_tmp):
             # round 0: an earlier archiving pass leaves history snapshots behind
             populate(0)
             archiver(srv.client('archiver-0'))
+            clock.set(NOW - 5)
+            for name in sorted(servers_cfg):
+                r = srng.random()
+                if r < 0.45:
+                    adm.delete(z.path.server(name))
+                    adm.create(z.path.server(name), b'{"parent": "rack:r2", "partition": "p1"}')
+                    servers_cfg[name] = 'removed-and-configured-again'
+                elif r < 0.6:
+                    adm.delete(z.path.server(name))
+                    servers_cfg[name] = 'removed'
+            clock.set(NOW)
             populate(1)
             # a consumer of the finished history that follows /finished.history with a watch: the state API
             cell_state = api_state.CellState()
@@ -469,6 +499,87 @@ def _cases(ctx, reader_tmp):
                     ctx.violation('trace-reader-misses-archived-events', '%s: %d archived events in present snapshots %s, the reader was '
                                   'handed %d; missing e.g. %s' % (inst, len(want), sorted(per_inst[inst]), len(set(handed) & set(want)), miss[0]),
                                   case=dict(case=idx))
+            # the server-trace reader (ServerTraceLoop, what `treadmill admin trace-server` style consumers use): every
+            # archived event of a server that sits in a present /server-trace.history snapshot is handed to it, and the
+            # whole reader delivers history (oldest snapshot first) then live events by its ordering rule - whether the
+            # server is configured, was removed, or was removed and configured again since its events were archived
+            present_s = set(srv.children(z.SERVER_TRACE_HISTORY))
+            order_s = sorted(present_s)
+            per_srv = {}
+            for path, snap in archived.items():
+                if os.path.dirname(snap) == z.SERVER_TRACE_HISTORY and os.path.basename(snap) in present_s:
+                    per_srv.setdefault(os.path.basename(path).split(',')[0], {}).setdefault(os.path.basename(snap), []).append(os.path.basename(path))
+            live_srv = {}
+            for p_ in live_sets()[2]:
+                live_srv.setdefault(os.path.basename(p_).split(',')[0], []).append(os.path.basename(p_))
+            for name in sorted(set(per_srv) | set(live_srv)):
+                status = servers_cfg.get(name, 'never-configured')
+                handed = []
+                loop = server_zk.ServerTraceLoop(srv.client('server-trace-reader'), name, None)
+                loop._process_events = lambda events, _ctx, handed=handed: handed.extend(events)     # pylint: disable=protected-access
+                loop._process_db_events(None)          # pylint: disable=protected-access
+                want = sorted(n for names in per_srv.get(name, {}).values() for n in names)
+                ctx.count('server_trace_reader_checked')
+                if want:
+                    ctx.count('server_trace_reader_archived_events_of_%s_server' % status.replace('-', '_'))
+                srv.child_order = 'sorted'
+                try:
+                    delivered = []
+                    loop2 = server_zk.ServerTraceLoop(srv.client('server-trace-reader-2'), name, None)
+                    loop2._process_event = (                    # pylint: disable=protected-access
+                        lambda oname, ts, src, etype, edata, _ctx, delivered=delivered:
+                        delivered.append(','.join([oname, ts, src, etype, edata])))
+                    loop2.run(snapshot=True)
+                finally:
+                    srv.child_order = 'hash'
+                expect, last = [], None
+                for listing in [per_srv.get(name, {}).get(sn, []) for sn in order_s] + [live_srv.get(name, [])]:
+                    for ev in sorted(tuple(n.split(',')) for n in listing):
+                        if last is not None and (ev[1] < last[1] or ev == last):
+                            continue
+                        expect.append(','.join(ev))
+                        last = ev
+                if delivered != expect:
+                    missing = [e for e in expect if e not in delivered]
+                    ctx.violation('server-trace-reader-run-drops-events' if missing else 'server-trace-reader-run-differs',
+                                  '%s (%s): reading history then live events should deliver %d events, the reader delivered %d; '
+                                  'e.g. %s' % (name, status, len(expect), len(delivered), (missing or delivered or expect)[0]),
+                                  case=dict(case=idx, server=status, archived=len(want), live=len(live_srv.get(name, []))))
+                if not set(want) <= set(handed):
+                    miss = sorted(set(want) - set(handed))
+                    ctx.violation('server-trace-reader-misses-archived-events', '%s (%s): %d archived events in present snapshots %s, the '
+                                  'reader was handed %d; missing e.g. %s' % (name, status, len(want), sorted(per_srv[name]),
+                                                                            len(set(handed) & set(want)), miss[0]),
+                                  case=dict(case=idx, server=status))
+            # the lookup by name (trace.app.zk.list_traces, behind `treadmill admin trace <app>`): an instance that is
+            # scheduled, has a live finished record, or whose finished record sits in a present /finished.history
+            # snapshot is found by the bare application name, by an explicit wildcard and by its own instance id
+            fin_archived = {os.path.basename(path) for path, snap in archived.items()
+                            if os.path.dirname(snap) == z.FINISHED_HISTORY and os.path.basename(snap) in present_f}
+            sched_now = set(srv.children(z.SCHEDULED))
+            lrng = ctx.case_rng(idx, 'list-traces')
+            for app in sorted({i.split('#')[0] for i in insts}):
+                mine = lambda names, app=app: {n for n in names if n.split('#')[0] == app}      # pylint: disable=unnecessary-lambda-assignment
+                live_part = mine(sched_now) | mine(live_f)
+                arch_part = mine(fin_archived)
+                if live_part and arch_part - live_part:
+                    ctx.count('list_traces_app_with_live_and_archived_instances')
+                lookups = [(app, 'application-name'), (app + '#*', 'wildcard')]
+                if arch_part:
+                    one = lrng.choice(sorted(arch_part))
+                    lookups.append((one, 'instance-id'))
+                for pattern, form in lookups:
+                    listed = set(app_zk.list_traces(srv.client('trace-lister'), pattern))
+                    ctx.count('list_traces_checked')
+                    scope = (live_part | arch_part) if form != 'instance-id' else {pattern}
+                    missing = sorted(scope - listed)
+                    if missing:
+                        where = 'archived-finished-record' if missing[0] in arch_part and missing[0] not in live_part else 'live-instance'
+                        ctx.violation('list-traces-misses-%s:by-%s' % (where, form),
+                                      'list_traces(%r) returned %d of the %d instances that are scheduled, finished or archived in a '
+                                      'present snapshot; missing e.g. %s (%d live, %d archived)' % (
+                                          pattern, len(listed & scope), len(scope), missing[0], len(live_part), len(arch_part)),
+                                      case=dict(case=idx, form=form))
             tempfile.tempdir = tmp
             # every write is a crash point
             cut_points = range(1, total + 1)
